@@ -20,7 +20,8 @@ RULE = ("complete product zoo entry (one per Term subclass/variant, from the liv
         "tier); every clause slot of SELECT/INSERT/UPDATE/DELETE/upsert/CTE/subquery statements per dialect class; seeded random "
         "compositions (a mismatch there is a violation of its own); the old table inside a scalar-subquery operand with fields or "
         "plain constants in the other slots; statements holding same-shaped terms over the same column names on two tables, "
-        "subqueries in IN lists / tuples / arrays / BETWEEN. non-trivial = the old table occurs in the object; distinct = (recipe, slot, pair)")
+        "subqueries in IN lists / tuples / arrays / BETWEEN. non-trivial = the old table occurs in the object; distinct = (recipe, slot, pair)"
+        " also: subquery operand forms, twin terms, COLLATE joins, set-operation ORDER BY keys, several FROM sources over the replaced table, continuations of the result, temporal namesakes as old / new pair. (DESIGN.md 6a)")
 ASSUMPTIONS = ["renderings are compared under namespace-forced contexts of two dialect classes (generic and MySQL)"]
 ANCHORS = ["Term.replace_table", "Field.replace_table", "Tuple.replace_table", "BasicCriterion.replace_table",
            "ContainsCriterion.replace_table", "BetweenCriterion.replace_table", "BitwiseAndCriterion.replace_table",
